@@ -459,6 +459,33 @@ def run(ctx):
                 shutil.rmtree(root, ignore_errors=True)
     union_orders()
 
+    # (iii-h) generic aliases by the shape of their body, each used with a primitive and a record argument, in a field, a vector, a step and a stream
+    def generic_alias_shapes():
+        shapes = [("identity", "T"), ("optional", "T?"), ("vector", "T*"), ("fixed-vector", "T*3"), ("array", "T[]"), ("fixed-array", "T[2, 2]"), ("map-value", "string->T"),
+                  ("union", "[T, string]"), ("nullable-union", "[null, T, string]"), ("generic-record", "GaPair<T, int>"), ("nested-alias", "GaInner<T>*")]
+
+        def one_shape(sh):
+            name, body = sh
+            model = ('"GaPair<A, B>": !record\n  fields:\n    a: A\n    b: B\n"GaInner<T>": T?\nGaRec: !record\n  fields:\n    q: int\n'
+                     '"GaAlias<T>": %s\n' % (body if not body.startswith("[") else body) +
+                     'GaUses: !record\n  fields:\n    p: GaAlias<int>\n    r: GaAlias<GaRec>\n    v: GaAlias<float>*\n    s: GaAlias<string>\n'
+                     'GaProto: !protocol\n  sequence:\n    u: GaUses\n    direct: GaAlias<double>\n    items: !stream\n      items: GaAlias<int>\n')
+            root = os.path.join(ctx.workdir, "cases", "generic_alias_%s" % name.replace("-", "_"))
+            shutil.rmtree(root, ignore_errors=True)
+            outs = ("cpp:\n  sourcesOutputDir: ../out/cpp\n  generateHDF5: false\n  generateCMakeLists: false\n  overrideArrayHeader: %s\npython:\n  outputDir: ../out/python\n"
+                    "matlab:\n  outputDir: ../out/matlab\njson:\n  outputDir: ../out/json\n" % cxx.ARRAY_HEADER)
+            common.write_tree(root, {"pkg/_package.yml": "namespace: GenAlias\n" + outs, "pkg/model.yml": model})
+            res = check_outputs(ctx, root, os.path.join(root, "pkg"), home, "generic alias whose body is `%s`, used with primitive and record arguments" % body, "generic-alias:%s" % name, full_cpp=False)
+            ctx.case(("generic-alias", name))
+            ctx.count("generic-alias.%s" % res)
+            if res == "rejected":
+                ctx.count("generic-alias.not-a-valid-model")
+                shutil.rmtree(root, ignore_errors=True)
+            elif res != "bad":
+                shutil.rmtree(root, ignore_errors=True)
+        pmap(one_shape, shapes, workers=6)
+    generic_alias_shapes()
+
     # (iv) init scaffolds
     def init(nm):
         root = os.path.join(ctx.workdir, "cases", "init_%s" % nm[:30])
